@@ -48,14 +48,23 @@ func NewTernarySampler(prng sampling.PRNG, baseRing *Ring, X Ternary, montgomery
 // AtLevel returns an instance of the target TernarySampler to sample at the given level.
 // The returned sampler cannot be used concurrently to the original sampler.
 func (ts *TernarySampler) AtLevel(level int) Sampler {
-	return &TernarySampler{
+	res := &TernarySampler{
 		baseSampler:  ts.baseSampler.AtLevel(level),
 		matrixProba:  ts.matrixProba,
 		matrixValues: ts.matrixValues,
 		invDensity:   ts.invDensity,
 		hw:           ts.hw,
-		sample:       ts.sample,
 	}
+
+	// The sampling function is a method value: it must be bound
+	// to the new instance, not to the receiver it is derived from.
+	if ts.hw != 0 {
+		res.sample = res.sampleSparse
+	} else {
+		res.sample = res.sampleProba
+	}
+
+	return res
 }
 
 // Read samples a polynomial into pol.
